@@ -8,7 +8,7 @@ Model (Model/Translate.lean) ↔ Rust:
                     translator calls on the node's own atoms, `Miniscript::from_ast` per node
   substituteRawPkh↔ `Miniscript::substitute_raw_pkh`
   forEachKey / forAnyKey ↔ `ForEachKey for Miniscript` (loop over `pre_order_iter`, short-circuit)
-  Ms.iterNodes / Ms.iterPk ↔ `Miniscript::iter` (path stack, `get_nth_child`) / `iter_pk` (`get_nth_pk`)
+  Ms.iterNodes / Ms.iterPkLit ↔ `Miniscript::iter` (path stack, `get_nth_child`) / `iter_pk` (`get_nth_pk`)
 The translator is `&mut`: its methods run in `TrM σ ε = StateT σ (Except (TrErr ε))`, so the
 ORDER of the calls (right-to-left post-order) is part of every statement.  `chk` stands for
 `Miniscript::from_ast` in the target context (type check + `Ctx::check_global_validity`).
@@ -171,16 +171,16 @@ theorem iter_eq_pre (ms : Ms) : ms.iterNodes = ms.pre := iterNodes_eq ms
 /-- `iter_pk` (`get_nth_pk(0), get_nth_pk(1), …` on every node of `iter`) yields exactly
 `ms.keys`: the keys of `pk_k`, `pk_h`, `multi`, `sortedmulti`, `multi_a`, `sortedmulti_a` in the
 order of the string form, with multiplicity -/
-theorem iter_pk_eq_keys (ms : Ms) : ms.iterPk = ms.keys := iterPk_eq ms
+theorem iter_pk_eq_keys (ms : Ms) : ms.iterPkLit = ms.keys := iterPk_eq ms
 
 /-- a key-substituted miniscript has the substituted key list (same positions, same
 multiplicities) -/
 theorem keys_translate (f : Key → Key) (g : HashKind → Nat → Nat) (ms : Ms) :
-    (ms.mapKeys f g).iterPk = ms.iterPk.map f := by
+    (ms.mapKeys f g).iterPkLit = ms.iterPkLit.map f := by
   rw [iter_pk_eq_keys, iter_pk_eq_keys]
   exact keysPre_mapKeys f g ms
 
-example : w.iterPk = [0, 1, 2, 3, 4, 5] := by decide
+example : w.iterPkLit = [0, 1, 2, 3, 4, 5] := by decide
 example : forEachKey (fun k => k != 3) w = ([0, 1, 2, 3], false) := by decide
 example : forAnyKey (fun k => k == 4) w = ([0, 1, 2, 3, 4], true) := by decide
 
